@@ -53,27 +53,30 @@ impl RecordsBounds {
         Self::new(Self::namespace_start(&ns), Self::namespace_end(&ns))
     }
 
-    /// The half-open range `[start, end)` restricted to the records of namespace `ns`.
-    pub fn within_namespace(ns: &NamespaceId, start: RecordsIdOwned, end: RecordsIdOwned) -> Self {
+    /// The half-open range `[start, end)` restricted to the records of namespace `ns`;
+    /// `None` stands for the boundary of the namespace on that side.
+    pub fn within_namespace(
+        ns: &NamespaceId,
+        start: Option<RecordsIdOwned>,
+        end: Option<RecordsIdOwned>,
+    ) -> Self {
         let ns_start = (ns.to_bytes(), [0u8; 32], Bytes::new());
-        let start = start.max(ns_start);
-        let end = match Self::namespace_end(ns) {
-            Bound::Excluded(ns_end) if ns_end < end => ns_end,
-            _ => end,
+        let start = match start {
+            Some(start) if start > ns_start => start,
+            _ => ns_start,
         };
-        if start >= end {
-            // empty
-            return Self::new(Bound::Included(start.clone()), Bound::Excluded(start));
+        let end = match (end, Self::namespace_end(ns)) {
+            (Some(end), Bound::Excluded(ns_end)) => Bound::Excluded(end.min(ns_end)),
+            (Some(end), _) => Bound::Excluded(end),
+            (None, ns_end) => ns_end,
+        };
+        if let Bound::Excluded(end) = &end {
+            if start >= *end {
+                // empty
+                return Self::new(Bound::Included(start.clone()), Bound::Excluded(start));
+            }
         }
-        Self::new(Bound::Included(start), Bound::Excluded(end))
-    }
-
-    pub fn from_start(ns: &NamespaceId, end: Bound<RecordsIdOwned>) -> Self {
-        Self::new(Self::namespace_start(ns), end)
-    }
-
-    pub fn to_end(ns: &NamespaceId, start: Bound<RecordsIdOwned>) -> Self {
-        Self::new(start, Self::namespace_end(ns))
+        Self::new(Bound::Included(start), end)
     }
 
     pub fn as_ref(&self) -> (Bound<RecordsId<'_>>, Bound<RecordsId<'_>>) {
